@@ -53,3 +53,222 @@ pub fn f64_ops(seed: u64, n: usize) {
         println!("FO fo-{}-{} {} {} {} {}", seed, i, op, a.to_bits(), b.to_bits(), r.to_bits());
     }
 }
+
+// ---------------------------------------------------------------------------------------------
+// Float-exact agent histories (`agentx`): the REAL noise / momentum agents update a REAL
+// environment; the Lean driver runs `Model/FloatAgents.lean` on its own model environment with the
+// exact generator model and must predict every instruction, the generator state afterwards and the
+// complete observation. The two library calls the model cannot compute are recorded here as tables:
+// `smp=` (`LogNormal::sample` at every generator state the update passed through: value bits and the
+// number of 64-bit draws it consumes) and `th=` (`f64::tanh` of the argument the documented
+// recurrence produces).
+
+use crate::envdrive::{EOp, EnvHeader, EnvLike, EnvLive, EnvW, MEnvW};
+use crate::sim::{frac, AgentSpec};
+use bourse_book::OrderError;
+use bourse_de::agents::{Agent, MarketAgent};
+use bourse_de::{Env, MarketEnv};
+use rand::RngCore;
+use rand_distr::{Distribution, LogNormal};
+use std::io::Write;
+use std::panic::{catch_unwind, AssertUnwindSafe};
+
+/// A generator that records the state before every draw.
+pub struct LogRng {
+    pub inner: Xoroshiro128StarStar,
+    pub log: Vec<(Xoroshiro128StarStar, bool)>,
+}
+
+impl RngCore for LogRng {
+    fn next_u32(&mut self) -> u32 { self.log.push((self.inner.clone(), false)); self.inner.next_u32() }
+    fn next_u64(&mut self) -> u64 { self.log.push((self.inner.clone(), true)); self.inner.next_u64() }
+    fn fill_bytes(&mut self, dest: &mut [u8]) { self.log.push((self.inner.clone(), true)); self.inner.fill_bytes(dest) }
+    fn try_fill_bytes(&mut self, dest: &mut [u8]) -> Result<(), rand::Error> { self.fill_bytes(dest); Ok(()) }
+}
+
+struct CountRng { inner: Xoroshiro128StarStar, n: usize, only64: bool }
+impl RngCore for CountRng {
+    fn next_u32(&mut self) -> u32 { self.n += 1; self.only64 = false; self.inner.next_u32() }
+    fn next_u64(&mut self) -> u64 { self.n += 1; self.inner.next_u64() }
+    fn fill_bytes(&mut self, dest: &mut [u8]) { self.n += 1; self.only64 = false; self.inner.fill_bytes(dest) }
+    fn try_fill_bytes(&mut self, dest: &mut [u8]) -> Result<(), rand::Error> { self.fill_bytes(dest); Ok(()) }
+}
+
+/// The exact parameter values the model needs (`f32` / `f64` bit patterns), in the order of the spec.
+fn bits_of(sp: &AgentSpec) -> String {
+    match sp.kind {
+        'N' => {
+            let p = sp.noise_params();
+            format!("{},{},{}", p.p_limit.to_bits(), p.p_market.to_bits(), p.p_cancel.to_bits())
+        }
+        _ => {
+            let p = sp.momentum_params();
+            format!("{},{},{},{},{}", p.p_cancel.to_bits(), p.decay.to_bits(), p.demand.to_bits(), p.scale.to_bits(), p.order_ratio.to_bits())
+        }
+    }
+}
+
+struct XCfg { multi: bool, asset: usize, tick: u32, seed: u64, steps: usize, step_size: u64, start_book: u8, toggles: bool, subject: AgentSpec }
+
+fn gen_xcfg(rng: &mut Xoroshiro128StarStar, only: Option<char>) -> XCfg {
+    let multi = rng.gen::<f64>() < 0.4;
+    let asset = if multi { rng.gen_range(0..2) } else { 0 };
+    let tick: u32 = rng.gen_range(1..11);
+    let pr = |rng: &mut Xoroshiro128StarStar| ["0/1", "1/8", "1/3", "1/2", "9/10", "1/1", "3/2"][rng.gen_range(0..7)].to_string();
+    let kind0 = ['N', 'M'][rng.gen_range(0..2)];
+    let kind = only.unwrap_or(kind0);
+    let n = rng.gen_range(1..7u32);
+    let start = rng.gen_range(0..200u32);
+    let f: Vec<String> = match kind {
+        'N' => vec![start.to_string(), n.to_string(), tick.to_string(), pr(rng), pr(rng), pr(rng), rng.gen_range(1..20u32).to_string(),
+                    ["0", "1", "3", "-2"][rng.gen_range(0..4)].into(), ["1/2", "1", "3", "10"][rng.gen_range(0..4)].into()],
+        _ => vec![start.to_string(), n.to_string(), tick.to_string(), pr(rng), rng.gen_range(1..20u32).to_string(),
+                  ["1/2", "1/4", "1", "1/3", "7/10"][rng.gen_range(0..5)].into(), ["1", "5", "40", "1/3", "-2"][rng.gen_range(0..5)].into(),
+                  ["1/100", "1/2", "4", "1/7", "-1/2"][rng.gen_range(0..5)].into(), ["0", "1/2", "1", "2", "1/3"][rng.gen_range(0..5)].into(),
+                  ["0", "1", "-1"][rng.gen_range(0..3)].into(), ["1/2", "1", "3", "10"][rng.gen_range(0..4)].into()],
+    };
+    XCfg { multi, asset, tick, seed: rng.gen_range(0..1_000_000), steps: [2usize, 5, 12, 30][rng.gen_range(0..4)],
+           step_size: [1u64, 3, 50, 1000][rng.gen_range(0..4)], start_book: rng.gen_range(0..6), toggles: rng.gen::<f64>() < 0.3,
+           subject: AgentSpec { kind, asset, f } }
+}
+
+fn run_x<E: EnvLike<10>, W: Write>(hid: &str, cfg: &XCfg, env: E, mut update: impl FnMut(&mut E, &mut LogRng), w: &mut W) {
+    let sp = &cfg.subject;
+    let ticks: Vec<u32> = if cfg.multi { vec![cfg.tick, cfg.tick] } else { vec![cfg.tick] };
+    let h = EnvHeader { id: hid.to_string(), profile: "agentx".into(), kind: if cfg.multi { "menv".into() } else { "env".into() },
+                        seed: cfg.seed, t0: 0, ticks: ticks.clone(), step: cfg.step_size, trading: true, levels: 10 };
+    let spec_s = format!("{}@{}:{}", sp.kind, sp.asset, sp.f.join(":"));
+    writeln!(w, "{} agent={} bits={}", h.line(), spec_s, bits_of(sp)).unwrap();
+    // no shadows here: what the agent queued is not observable before the step (the queue is private), so
+    // the prediction of the queue is checked through the complete observation after the step
+    let mut live = EnvLive { env, rng: Xoroshiro128StarStar::seed_from_u64(cfg.seed), shadows: Vec::new(), queue: Vec::new(), trading: true, dead: false };
+    writeln!(w, "I {}", live.obs("u", "ok", "-", "1")).unwrap();
+    // the harness's own generator for the market-moving foreign trader
+    let mut hr = Xoroshiro128StarStar::seed_from_u64(cfg.seed ^ 0x77aa);
+    let a = cfg.asset;
+    let tick = cfg.tick;
+    let emit = |live: &mut EnvLive<10, E>, op: &EOp, w: &mut W| {
+        let r = catch_unwind(AssertUnwindSafe(|| {
+            let mut res = "u".to_string();
+            match op {
+                EOp::Submit(a, bid, vol, tr, p) => match live.env.submit(*a, *bid, *vol, *tr, *p) {
+                    Ok(id) => res = format!("ok:{}", id),
+                    Err(OrderError::PriceError { price, tick_size }) => res = format!("err:{}:{}", price, tick_size),
+                },
+                EOp::Trading(b) => { live.env.trading(*b); live.trading = *b; }
+                EOp::Step => live.env.do_step(&mut live.rng),
+                _ => {}
+            }
+            res
+        }));
+        match r {
+            Ok(res) => {
+                match op {
+                    EOp::Step => writeln!(w, "O xstep rng={}", live.rng.clone().next_u64()).unwrap(),
+                    _ => writeln!(w, "O {}", op.line()).unwrap(),
+                }
+                writeln!(w, "I {}", live.obs(&res, "ok", "-", "1")).unwrap();
+            }
+            Err(_) => {
+                live.dead = true;
+                writeln!(w, "O {}", op.line()).unwrap();
+                writeln!(w, "I r=PANIC sh=ok perm=- rngck=1 n=0").unwrap();
+            }
+        }
+    };
+    let low = cfg.start_book >= 4;
+    let base = if low { 0 } else { 1000 * tick };
+    if low {
+        for k in 1..3u32 { emit(&mut live, &EOp::Submit(a, false, 50, 9000, Some(k * tick)), w); }
+    } else {
+        if cfg.start_book & 1 != 0 { for k in 1..4u32 { emit(&mut live, &EOp::Submit(a, true, 50, 9000, Some(base - k * tick)), w); } }
+        if cfg.start_book & 2 != 0 { for k in 1..4u32 { emit(&mut live, &EOp::Submit(a, false, 50, 9000, Some(base + k * tick)), w); } }
+    }
+    emit(&mut live, &EOp::Step, w);
+    let (decay, demand, scale) = if sp.kind == 'M' { let p = sp.momentum_params(); (p.decay, p.demand, p.scale) } else { (0.0, 0.0, 0.0) };
+    let _ = demand;
+    let (mu, sigma) = if sp.kind == 'N' { (frac(&sp.f[7]), frac(&sp.f[8])) } else { (frac(&sp.f[9]), frac(&sp.f[10])) };
+    let dist = LogNormal::<f64>::new(mu, sigma).unwrap();
+    let mut mom_m: f64 = 0.0;
+    let mut mom_last: Option<f64> = None;
+    for _step in 0..cfg.steps {
+        if live.dead { return; }
+        // keep the market moving
+        let (bb, ba) = live.env.book(a).bid_ask();
+        match hr.gen_range(0..6) {
+            // while trading is off: cross the book (the agents then observe a crossed market)
+            0 | 1 if !live.trading && bb > tick && ba < u32::MAX - tick => {
+                if hr.gen_bool(0.5) { emit(&mut live, &EOp::Submit(a, true, 7, 9000, Some(ba + tick)), w) }
+                else { emit(&mut live, &EOp::Submit(a, false, 7, 9000, Some(bb - tick)), w) }
+            }
+            0 if bb > 0 && ba < u32::MAX && bb + 2 * tick < ba => emit(&mut live, &EOp::Submit(a, true, 5, 9000, Some(bb + tick)), w),
+            1 if bb > 0 && ba < u32::MAX && bb + 2 * tick < ba => emit(&mut live, &EOp::Submit(a, false, 5, 9000, Some(ba - tick)), w),
+            2 if ba < u32::MAX => emit(&mut live, &EOp::Submit(a, true, 60, 9000, None), w),
+            3 if bb > 0 => emit(&mut live, &EOp::Submit(a, false, 60, 9000, None), w),
+            4 if cfg.toggles => { let t = !live.trading; emit(&mut live, &EOp::Trading(t), w) }
+            _ => {}
+        }
+        if live.dead { return; }
+        // the tanh table: the documented recurrence on the mid the agent is about to observe
+        let mid = live.env.book(a).mid_price();
+        let mut th = String::from("-");
+        if sp.kind == 'M' {
+            if let Some(p) = mom_last {
+                mom_m = mom_m * (1.0 - decay) + decay * (mid - p);
+                let x = scale * mom_m;
+                th = format!("{}:{}", x.to_bits(), x.tanh().to_bits());
+            }
+            mom_last = Some(mid);
+        }
+        // the real update
+        let mut lr = LogRng { inner: live.rng.clone(), log: Vec::new() };
+        let r = catch_unwind(AssertUnwindSafe(|| update(&mut live.env, &mut lr)));
+        if r.is_err() {
+            writeln!(w, "O update PANIC").unwrap();
+            writeln!(w, "I r=PANIC sh=ok perm=- rngck=1 n=0").unwrap();
+            return;
+        }
+        live.rng = lr.inner.clone();
+        // the sampler table
+        let mut smp: Vec<String> = Vec::new();
+        for (st, is64) in lr.log.iter() {
+            if !*is64 { continue; }
+            let mut c = CountRng { inner: st.clone(), n: 0, only64: true };
+            let v: f64 = dist.sample(&mut c);
+            let key = st.clone().next_u64();
+            smp.push(format!("{}:{}:{}:{}", key, v.to_bits(), c.n, if c.only64 { 1 } else { 0 }));
+        }
+        let rng_after = live.rng.clone().next_u64();
+        writeln!(w, "O update rng={} th={} smp={}", rng_after, th, if smp.is_empty() { "-".to_string() } else { smp.join(",") }).unwrap();
+        writeln!(w, "I {}", live.obs("u", "ok", "-", "1")).unwrap();
+        emit(&mut live, &EOp::Step, w);
+    }
+}
+
+/// `agent-exact --seed S --n N [--kind N|M]`
+pub fn agent_exact(seed: u64, n: usize, only: Option<char>) {
+    let stdout = std::io::stdout();
+    let mut w = std::io::BufWriter::new(stdout.lock());
+    for i in 0..n {
+        let mut rng = Xoroshiro128StarStar::seed_from_u64(seed.wrapping_mul(0x9E3779B97F4A7C15).wrapping_add(i as u64) ^ 0xFA6E);
+        let cfg = gen_xcfg(&mut rng, only);
+        let hid = format!("ax{}-{}-{}", cfg.subject.kind, seed, i);
+        let r = catch_unwind(AssertUnwindSafe(|| {
+            let mut buf: Vec<u8> = Vec::new();
+            if !cfg.multi {
+                let env = EnvW::<10>(Env::new(0, cfg.tick, cfg.step_size, true), cfg.step_size);
+                let mut agent = cfg.subject.build();
+                run_x(&hid, &cfg, env, |e: &mut EnvW<10>, r: &mut LogRng| agent.update(&mut e.0, r), &mut buf);
+            } else {
+                let env = MEnvW::<2, 10>(MarketEnv::new(0, [cfg.tick, cfg.tick], cfg.step_size, true), cfg.step_size);
+                let mut agent = cfg.subject.build_market();
+                run_x(&hid, &cfg, env, |e: &mut MEnvW<2, 10>, r: &mut LogRng| agent.update(&mut e.0, r), &mut buf);
+            }
+            buf
+        }));
+        match r {
+            Ok(buf) => w.write_all(&buf).unwrap(),
+            Err(_) => writeln!(w, "H {} agentx env 0 0 1 1 1 10 agent=X bits=-\nI r=PANIC sh=ok perm=- rngck=1 n=0", hid).unwrap(),
+        }
+    }
+}
